@@ -431,15 +431,11 @@ def execute_history(cfg, d, valid, scratch, stats=None):
                     v("stale-after-ok" if stale else "wrong-after-ok", s,
                       "run returned Ok but the destination differs from compile-from-scratch (%s)" % ("old file kept" if stale else "new content is wrong"))
                     continue
-                m = HEADER_RE.match(a[0])
-                if not m or m.group(1).decode() != crc32_hex(texts[s]):
+                header, tail = procsim.split_header(a[0])
+                if crc32_hex(texts[s]).encode() not in header.lower():
                     v("header-mismatch", s, "destination header does not carry the CRC-32 of the current grammar")
-                elif not fmt:
-                    tail = a[0][m.end():]
-                    while tail.startswith(b"//"):  # further header comment lines
-                        tail = tail[tail.index(b"\n") + 1:] if b"\n" in tail else b""
-                    if not tail.startswith(b"\n" + rprefix.encode() + b"\n"):
-                        v("header-mismatch", s, "destination does not continue with the prefix after the header")
+                elif not fmt and not tail.startswith(b"\n" + rprefix.encode() + b"\n"):
+                    v("header-mismatch", s, "destination does not continue with the prefix after the header")
                 if fresh.get(s) and a[1] != before[s][1]:
                     v("touched-when-fresh", s, "destination was already the compilation of the same grammar, prefix and library but was rewritten")
             if not failing:
